@@ -612,13 +612,13 @@ def small(case):
 # ----------------------------------------------------------------------------- the run
 
 # source translator (DESIGN.md 3.2): part of the model is regenerated from the source text on every run
-TRUSTED = list(TRUSTED) + [py2lean.trusted_note("bottleneck")]
-PROP_FILES = ["PersimVerif/Props/C01.lean"] + py2lean.prop_files("bottleneck")
+TRUSTED = list(TRUSTED) + [py2lean.trusted_note("bottleneck"), py2lean.trusted_note("bottleneck_search")]
+PROP_FILES = ["PersimVerif/Props/C01.lean"] + py2lean.prop_files("bottleneck") + py2lean.prop_files("bottleneck_search")
 
 
 def pre_build(ctx):
     """source translator: regenerate Generated/Src*.lean from PERSIM_ROOT's source"""
-    py2lean.pre_build(ctx, ("bottleneck",))
+    py2lean.pre_build(ctx, ("bottleneck", "bottleneck_search"))
 
 
 
@@ -1034,4 +1034,4 @@ MANIFEST = {
             "equality are compared with the model only (correspondence breaks).",
     "technique": "Lean 4 theorems over a hand-written model (oracle as parameter) + differential correspondence + verified certificate checkers",
 }
-MANIFEST["note"] += " " + py2lean.manifest_note("bottleneck")
+MANIFEST["note"] += " " + py2lean.manifest_note("bottleneck") + " " + py2lean.manifest_note("bottleneck_search")
